@@ -90,8 +90,12 @@ def plan_tasks(prop, tier, builts, wd, build_errors, compile_violations):
     tasks = []
     all_spec_names = set(); found_names = set()
     for cn in cfgs:
-        if CONFIGS[cn].get('props') is not None and prop not in CONFIGS[cn]['props']:
+        restricted = CONFIGS[cn].get('props') is not None and prop not in CONFIGS[cn]['props']
+        if restricted and plan is not None:
             continue
+        if prop in WHOLE_CONTRACT_PROPS and plan is None and not (CONFIGS[cn].get('props') and prop in CONFIGS[cn]['props']) \
+                and cn not in [CONFIGS[c].get('dedupe_against') for c in cfgs if CONFIGS[c].get('props') and prop in CONFIGS[c]['props']]:
+            continue            # 'same contract in another configuration class': only the dedicated configurations (and the one they are compared with)
         if cn not in builts:
             try:
                 builts[cn] = verif.build(cn, wd)
@@ -121,11 +125,13 @@ def plan_tasks(prop, tier, builts, wd, build_errors, compile_violations):
             if fn not in b.model.em.by_cname:
                 continue            # not instantiated in this configuration
             found_names.add(fn)
+            if restricted:
+                continue            # configuration dedicated to other properties: extracted only so that the rename guard below sees its functions
             if b.cfg.get('only') is not None and fn not in b.cfg['only']:
                 continue            # proved in the base configuration: this configuration only re-proves what depends on it
             if relevant(sp, prop):
                 tasks.append((b, fn))
-    for nm in sorted(all_spec_names - found_names):
+    for nm in sorted(all_spec_names - found_names) if prop not in WHOLE_CONTRACT_PROPS else []:      # (the dedicated configurations of a whole-contract property instantiate a subset)
         build_errors.append('contract target %s exists in no configuration of this tier (renamed or removed?)' % nm)
     return cfgs, tasks
 
